@@ -68,3 +68,149 @@ def Expr.size : Expr → Nat
   | _ => 1
 
 end Blackbird
+
+namespace Blackbird
+
+/-- `x₀ , x₁ , …` -/
+def sepToks {α : Type} (f : α → List Tok) : List α → List Tok
+  | [] => []
+  | [x] => f x
+  | x :: xs => f x ++ mkTok .COMMA "," :: sepToks f xs
+
+def ArgVal.toks : ArgVal → List Tok
+  | .expr e => e.toks
+  | .str raw => [mkTok .STR raw]
+  | .bool b => [mkTok .BOOL (if b then "True" else "False")]
+
+def KwVal.toks : KwVal → List Tok
+  | .one v => v.toks
+  | .list vs => [mkTok .LSQBRAC "["] ++ sepToks ArgVal.toks vs ++ [mkTok .RSQBRAC "]"]
+
+def kwargToks (kv : String × KwVal) : List Tok :=
+  mkTok .NAME kv.1 :: mkTok .ASSIGN "=" :: kv.2.toks
+
+/-- `( vals , kwargs )` in the canonical form: no lone comma -/
+def Args.toks (a : Args) : List Tok :=
+  let body :=
+    match a.pos, a.kw with
+    | [], [] => []
+    | p, [] => sepToks ArgVal.toks p
+    | [], k => sepToks kwargToks k
+    | p, k => sepToks ArgVal.toks p ++ mkTok .COMMA "," :: sepToks kwargToks k
+  mkTok .LBRAC "(" :: body ++ [mkTok .RBRAC ")"]
+
+def optArgsToks : Option Args → List Tok
+  | none => []
+  | some a => a.toks
+
+def Brk.openTok : Brk → Tok
+  | .round => mkTok .LBRAC "("
+  | .square => mkTok .LSQBRAC "["
+
+def Brk.closeTok : Brk → Tok
+  | .round => mkTok .RBRAC ")"
+  | .square => mkTok .RSQBRAC "]"
+
+def optOpen : Option Brk → List Tok
+  | none => []
+  | some b => [b.openTok]
+
+def optClose : Option Brk → List Tok
+  | none => []
+  | some b => [b.closeTok]
+
+/-- a statement without its trailing line ends -/
+def Stmt.toks (s : Stmt) : List Tok :=
+  mkTok (if s.isMeasure then .MEASURE else .NAME) s.op :: optArgsToks s.args ++
+    mkTok .APPLY "|" :: optOpen s.lb ++ sepToks Expr.toks s.modes ++ optClose s.rb
+
+def nl : Tok := mkTok .NEWLINE "\n"
+def tab : Tok := mkTok .TAB "    "
+
+def VarType.toToks (ty : VarType) : Tok := mkTok ty.tok ty.name
+
+def VName.toTok (n : VName) : Tok := ⟨n.tok, n.text, n.pos⟩
+
+def LoopHeader.toks : LoopHeader → List Tok
+  | .range a b none => [mkTok .INT a, mkTok .COLON ":", mkTok .INT b]
+  | .range a b (some c) => [mkTok .INT a, mkTok .COLON ":", mkTok .INT b, mkTok .COLON ":", mkTok .INT c]
+  | .list lb vs rb => optOpen lb ++ sepToks ArgVal.toks vs ++ optClose rb
+
+end Blackbird
+
+namespace Blackbird
+
+def shapeToks : Option (List String) → List Tok
+  | none => []
+  | some sh => [mkTok .LSQBRAC "["] ++ sepToks (fun s => [mkTok .INT s]) sh ++ [mkTok .RSQBRAC "]"]
+
+def rowsToks (rows : List (List Expr)) : List Tok :=
+  rows.flatMap fun r => tab :: (sepToks Expr.toks r ++ [nl])
+
+def ArrBody.toks : ArrBody → List Tok
+  | .rows rs => rowsToks rs
+  | .bare p => [mkTok .LBRACE "{", mkTok .NAME p, mkTok .RBRACE "}"]
+
+/-- loop body: the first statement directly after `NEWLINE TAB`; before each later statement
+`1 + g` line ends (g blank lines) and a TAB -/
+def bodyToks : List Stmt → List Nat → List Tok
+  | [], _ => []
+  | s :: rest, gaps =>
+    let g := gaps.headD 0
+    List.replicate (g + 1) nl ++ tab :: (s.toks ++ bodyToks rest gaps.tail)
+
+/-- tokens of one item; `lay` are the numbers of blank lines between the statements of a loop body -/
+def Item.toks (lay : List Nat) : Item → List Tok
+  | .var ty n init => ty.toToks :: n.toTok :: mkTok .ASSIGN "=" :: init.toks
+  | .arr ty pos n shape body =>
+    ⟨ty.tok, ty.name, pos⟩ :: mkTok .TYPE_ARRAY "array" :: n.toTok :: (shapeToks shape ++
+      mkTok .ASSIGN "=" :: nl :: body.toks)
+  | .stmt s => s.toks
+  | .loop ty x h body =>
+    match body with
+    | [] => []
+    | s :: rest =>
+      mkTok .FOR "for" :: ty.toToks :: mkTok .NAME x :: mkTok .IN "in" :: (h.toks ++
+        nl :: tab :: (s.toks ++ bodyToks rest lay))
+
+/-- items with `g` line ends before each (`gaps`), and `final` line ends at the end -/
+def itemsToks : List (Nat × List Nat) → Nat → List Item → List Tok
+  | _, final, [] => List.replicate final nl
+  | lay, final, it :: rest =>
+    let l := lay.headD (0, [])
+    List.replicate l.1 nl ++ (it.toks l.2 ++ itemsToks lay.tail final rest)
+
+end Blackbird
+
+namespace Blackbird
+
+/-- layout of the metadata block: numbers of (extra) line ends -/
+structure MetaLay where
+  lead : Nat          -- before `name`
+  afterName : Nat     -- extra line ends after the name line (at least one is always written)
+  beforeTarget : Nat
+  beforeType : Nat
+  beforeInclude : List Nat
+  /-- `true`: the device name is a DEVICE token (contains `.` or starts with a digit), else NAME -/
+  deviceTok : Bool
+
+def metaOptToks (kw : Tok) (nameKind : TokKind) (extra : Nat) : Option (String × Option Args) → List Tok
+  | none => []
+  | some (n, a) => List.replicate (extra + 1) nl ++ kw :: mkTok nameKind n :: optArgsToks a
+
+def includesToks : List String → List Nat → List Tok
+  | [], _ => []
+  | s :: rest, gaps => List.replicate (gaps.headD 0) nl ++ mkTok .INCLUDE "include" :: mkTok .STR s :: includesToks rest gaps.tail
+
+def Header.toks (ml : MetaLay) (h : Header) : List Tok :=
+  List.replicate ml.lead nl ++ mkTok .PROGNAME "name" :: mkTok .NAME h.name ::
+    (List.replicate (ml.afterName + 1) nl ++ mkTok .VERSION "version" :: mkTok .FLOAT h.version ::
+      (metaOptToks (mkTok .TARGET "target") (if ml.deviceTok then .DEVICE else .NAME) ml.beforeTarget h.target ++
+        (metaOptToks (mkTok .PROGTYPE "type") .NAME ml.beforeType h.ptype ++
+          includesToks h.includes ml.beforeInclude)))
+
+/-- a whole script as tokens, ending with the end-of-input marker -/
+def Script.toks (ml : MetaLay) (lay : List (Nat × List Nat)) (final : Nat) (s : Script) : List Tok :=
+  s.header.toks ml ++ (itemsToks lay final s.items ++ [mkTok .EOF "<EOF>"])
+
+end Blackbird
